@@ -16,6 +16,9 @@ import (
 	"sort"
 	"testing"
 	"testing/iotest"
+	"time"
+
+	"github.com/andres-erbsen/clock"
 
 	"github.com/c2h5oh/datasize"
 	"github.com/uber-go/tally"
@@ -300,6 +303,13 @@ func TestC02(t *testing.T) {
 				continue
 			}
 			pl := 1 + int64(r.Intn(1<<24))
+			if len(table) > 0 && r.Intn(3) == 0 {
+				// repeat a piece length already in the table: neighbouring thresholds may share a value
+				for _, v := range table {
+					pl = v
+					break
+				}
+			}
 			table[th] = pl
 			cfg[datasize.ByteSize(th)] = datasize.ByteSize(pl)
 		}
@@ -313,6 +323,19 @@ func TestC02(t *testing.T) {
 			sizes = append(sizes, th-1, th, th+1)
 		}
 		sizes = append(sizes, 0, 1, int64(r.Int63n(1<<41)))
+		{
+			// a size strictly inside every range between two neighbouring thresholds
+			var ths []int64
+			for th := range table {
+				ths = append(ths, th)
+			}
+			sort.Slice(ths, func(a, b int) bool { return ths[a] < ths[b] })
+			for j := 0; j+1 < len(ths); j++ {
+				if ths[j+1]-ths[j] > 1 {
+					sizes = append(sizes, ths[j]+1+r.Int63n(ths[j+1]-ths[j]-1))
+				}
+			}
+		}
 		for _, s := range sizes {
 			if s < 0 {
 				continue
@@ -339,12 +362,19 @@ func TestC02(t *testing.T) {
 	}
 	defer cas.Close()
 	ng := run.N(150, 3000)
+	var reused metadata.TorrentMeta
 	for i := 0; i < ng; i++ {
 		table := map[int64]int64{}
 		cfg := map[datasize.ByteSize]datasize.ByteSize{}
 		for len(table) < 1+r.Intn(4) {
 			th := int64(r.Intn(3000))
 			table[th] = 1 + int64(r.Intn(700))
+			if r.Intn(3) == 0 {
+				for _, v := range table {
+					table[th] = v
+					break
+				}
+			}
 			cfg[datasize.ByteSize(th)] = datasize.ByteSize(table[th])
 		}
 		var ths []int64
@@ -375,8 +405,12 @@ func TestC02(t *testing.T) {
 			run.Violation("generate/error", id, err.Error())
 			continue
 		}
-		var tm metadata.TorrentMeta
-		if err := cas.GetCacheFileMetadata(d.Hex(), &tm); err != nil {
+		// one holder is reused across blobs, as long-lived callers do
+		tm := &reused
+		if i%2 == 0 {
+			tm = &metadata.TorrentMeta{}
+		}
+		if err := cas.GetCacheFileMetadata(d.Hex(), tm); err != nil {
 			run.Violation("generate/metainfo-not-stored", id, err.Error())
 			continue
 		}
@@ -386,6 +420,74 @@ func TestC02(t *testing.T) {
 			continue
 		}
 		checkMI(run, "generate", id, tm.MetaInfo, d, data, want, reference(data, want))
+		// the sidecar serialization of what was just fetched must parse back to the same metainfo
+		if sb, err := tm.Serialize(); err != nil {
+			run.Violation("generate/holder-serialize-error", id, err.Error())
+		} else if back, err := core.DeserializeMetaInfo(sb); err != nil {
+			run.Violation("generate/holder-serialization-does-not-parse", id, err.Error())
+		} else {
+			if back.InfoHash() != tm.MetaInfo.InfoHash() {
+				run.Violation("generate/holder-serialization-describes-another-torrent", id,
+					map[string]interface{}{"digest": d.Hex(), "serialized_digest": back.Digest().Hex(), "size": size})
+			}
+			checkMI(run, "generate/holder-roundtrip", id, back, d, data, want, reference(data, want))
+		}
+		run.Count("holder_serializations", 1)
+	}
+	memoryCachePhase(t, run, r)
+}
+
+// memoryCachePhase: blobs written through the in-memory write-through cache; their metainfo is fetched
+// (memory hit path) into ONE reused holder and serialized; each serialization must describe its own blob.
+func memoryCachePhase(t *testing.T, run *ev.Run, r *rand.Rand) {
+	dir := ev.TempDir(t, "c02m-")
+	clk := clock.NewMock()
+	clk.Set(time.Unix(1700000000, 0))
+	cfg := store.CAStoreConfig{UploadDir: dir + "/upload", CacheDir: dir + "/cache"}
+	cfg.MemoryCache.Enabled = true
+	cfg.MemoryCache.MaxSize = 4 << 20
+	cfg.MemoryCache.DrainWorkers = 1
+	cas, cleanup := store.CAStoreFixtureWithClock(cfg, clk)
+	defer cleanup()
+	n := run.N(60, 1500)
+	var holder metadata.TorrentMeta
+	for i := 0; i < n; i++ {
+		size := int64(1 + r.Intn(6000))
+		pl := int64(1 + r.Intn(512))
+		data := make([]byte, size)
+		r.Read(data)
+		d, _ := core.NewDigester().FromBytes(data)
+		id := fmt.Sprintf("mem|%d|%d|%s", size, pl, d.Hex()[:8])
+		run.Case(id, true)
+		err := cas.WriteBlobToCacheWithMetaInfo(d.Hex(), uint64(size), func(w store.FileReadWriter) error {
+			_, err := w.Write(data)
+			return err
+		}, pl)
+		if err != nil {
+			run.Violation("memcache/write-error", id, err.Error())
+			continue
+		}
+		if err := cas.GetCacheFileMetadata(d.Hex(), &holder); err != nil {
+			run.Violation("memcache/metainfo-not-available", id, err.Error())
+			continue
+		}
+		run.Count("memory_cache_metainfo_fetches", 1)
+		checkMI(run, "memcache", id, holder.MetaInfo, d, data, pl, reference(data, pl))
+		sb, err := holder.Serialize()
+		if err != nil {
+			run.Violation("memcache/holder-serialize-error", id, err.Error())
+			continue
+		}
+		back, err := core.DeserializeMetaInfo(sb)
+		if err != nil {
+			run.Violation("memcache/holder-serialization-does-not-parse", id, err.Error())
+			continue
+		}
+		if back.InfoHash() != holder.MetaInfo.InfoHash() || back.Digest() != d {
+			run.Violation("memcache/holder-serialization-describes-another-torrent", id,
+				map[string]interface{}{"digest": d.Hex(), "serialized_digest": back.Digest().Hex(), "size": size, "piece_length": pl})
+		}
+		checkMI(run, "memcache/holder-roundtrip", id, back, d, data, pl, reference(data, pl))
 	}
 }
 
